@@ -78,6 +78,12 @@ ExpandPlanes(records, rots) ==
       dirs == {x[1] : x \in re}
   IN {<<d, CHOOSE p \in {x[2] : x \in {y \in re : y[1] = d}} : \A x \in re : x[1] = d => p <= x[2]>> : d \in dirs}
 
+(* oblique cells: the normal of the plane (hkl) is the row vector hkl . M, M the reciprocal lattice, its rows the reciprocal vectors; for an
+   integer unimodular M primitive directions stay primitive *)
+RowMat(v, M) == <<v[1]*M[1][1] + v[2]*M[2][1] + v[3]*M[3][1], v[1]*M[1][2] + v[2]*M[2][2] + v[3]*M[3][2],
+                  v[1]*M[1][3] + v[2]*M[2][3] + v[3]*M[3][3]>>
+ExpandPlanesM(records, rots, M) == {<<Primitive(RowMat(e[1], M)), e[2]>> : e \in ExpandPlanes(records, rots)}
+
 CrossTab(pl) == TLCEval([i \in DOMAIN pl |-> TLCEval([j \in DOMAIN pl |-> Cross(pl[i].v, pl[j].v)])])
 
 (* no two facets with the same direction (a repeated plane has no identity of its own) *)
